@@ -37,7 +37,7 @@ def _dc_opts(cls):
     return None
 
 
-def check(ctx):
+def _core(ctx):
     R = "C13-K1"
     ctx.doc(R, "eq / hash / order of join keys derive from the same field set")
     comp = ctx.cls(CO, "Compatibility", R)
@@ -173,7 +173,53 @@ def check(ctx):
     ctx.floor(R, 5)
 
 
+
+def _k6(ctx):
+    from . import c14
+    c14._a5(ctx, "C13-K6")  # the only filter applied between join rounds is one-sided: it drops a row only if a whole previous solution beats it in every compared column
+
+
+def _k7(ctx):
+    R = "C13-K7"
+    ctx.doc(R, "reservation levels: the merge visits every level from the deepest one of either table down to the shallowest one of either table (inclusive), in descending order")
+    from ..norm import Normaliser
+    mn = ctx.func(PD, "PmappingDataframe.merge_next", R)
+    defs = {}
+    for st in mn.stmts():
+        for t, v, _ in assigned_targets(st):
+            if isinstance(t, ast.Name) and t.id in ("max_nloops", "min_nloops"):
+                defs.setdefault(t.id, []).append(v)
+    ctx.require(len(defs.get("max_nloops", [])) == 1 and len(defs.get("min_nloops", [])) == 1, R, "definitions of max_nloops / min_nloops")
+    mx, mi = defs["max_nloops"][0], defs["min_nloops"][0]
+    ok = isinstance(mx, ast.Call) and call_name(mx) == "max" and {"self.get_max_loop_index()", "right.get_max_loop_index()"} <= {norm(a) for a in mx.args}
+    ctx.check(ok, R, mn, mx, "the deepest level is not the maximum over both tables", "max_nloops = max over both tables (and the shared loop index)")
+    ok = isinstance(mi, ast.Call) and call_name(mi) == "min" and {"self.get_min_loop_index()", "right.get_min_loop_index()"} <= {norm(a) for a in mi.args}
+    ctx.check(ok, R, mn, mi, "the shallowest level is not the minimum over both tables (level -1 holds persistent tensors)", "min_nloops = min over both tables")
+    loops = [st for st in mn.stmts() if isinstance(st, ast.For) and isinstance(st.iter, ast.Call) and call_name(st.iter) == "range" and "nloops" in norm(st.iter)]
+    ctx.require(len(loops) == 1 and len(loops[0].iter.args) == 3, R, f"level loops: {len(loops)}")
+    lp = loops[0]
+    N = Normaliser()
+    a, b, c = lp.iter.args
+    start = N.poly(a) - N.poly(ast.parse("max_nloops", mode="eval").body)
+    stop = N.poly(b) - N.poly(ast.parse("min_nloops", mode="eval").body)
+    step = N.poly(c).const_value()
+    sv, ev = start.const_value(), stop.const_value()
+    ctx.require(sv is not None and ev is not None and step is not None, R, f"level loop bounds `{norm(lp.iter)}`")
+    ok = step == -1 and sv >= 0 and ev <= -1
+    ctx.check(ok, R, mn, lp, f"`{norm(lp.iter)}` does not reach level min_nloops (stop = min_nloops{float(ev):+g}) or does not start at max_nloops: the shallowest level -- where persistent tensors are reserved -- "
+              "is not combined, so later joins see a stale trunk reservation and over-capacity combinations survive", f"levels max_nloops .. min_nloops inclusive, descending (`{norm(lp.iter)}`)")
+    ctx.floor(R, 3)
+
+
+def check(ctx):
+    _core(ctx)
+    _k6(ctx)
+    _k7(ctx)
+
 VARIANTS = [
+    {"kind": "F", "name": "shallowest-reservation-level-skipped", "rule": "C13-K7", "edits": [(PD, "        for nloops in range(max_nloops, min_nloops - 1, -1):", "        for nloops in range(max_nloops, min_nloops, -1):")]},
+    {"kind": "F", "name": "thresholder-skips-absent-column", "rule": "C13-K6", "edits": [(JP, "                if k not in edp_mapping.columns:\n                    nondominated |= True\n                else:\n                    nondominated |= edp_mapping[k] <= v", "                if k not in edp_mapping.columns:\n                    continue\n                nondominated |= edp_mapping[k] <= v")]},
+    {"kind": "S", "name": "one-more-level-below", "edits": [(PD, "        for nloops in range(max_nloops, min_nloops - 1, -1):", "        for nloops in range(max_nloops, min_nloops - 2, -1):")]},
     {"kind": "F", "name": "eq-on-tensors-only", "rule": "C13-K1", "edits": [(CO, "        return self._get_hash_tuple() == other._get_hash_tuple()", "        return self.tensors == other.tensors")]},
     {"kind": "F", "name": "merge-anyway", "rule": "C13-K4", "edits": [(JP, "                    #     print(f\"\\tIncompatible: {e}\")\n                    continue", "                    #     print(f\"\\tIncompatible: {e}\")\n                    compatibility_joined = compatibility_a")]},
     {"kind": "F", "name": "append-left-only", "rule": "C13-K5", "edits": [(PD, "                left_match.append(a)\n                right_match.append(b)", "                left_match.append(a)")]},
